@@ -703,12 +703,42 @@ def _run_case(args):
             stats["prefix"] = _prefix(r)
         if case["kind"] == "tensor":
             t = _mk_tensor(case)
-            stream = seams.RandomStream(case["cid"] * 7 + 1)
-            if mode == "edge":
-                stream.edit = _edge_editor(case, r, stats)
             from collections import OrderedDict
 
             si = OrderedDict((n, funsor.Bint[s]) for n, s in case["sample_inputs"])
+            if mode == "edge_enum":
+                # complete enumeration: every boundary value of every row's CDF, for
+                # every draw position in turn (the other draws stay pseudo-random)
+                n_enum = 0
+                s_rows, p_rows, _ = _cdf_rows(case)
+                bnd = s_rows.ndim - 1
+                for pos in np.ndindex(*([sz for _, sz in case["sample_inputs"]] + list(s_rows.shape[:-1]))):
+                    row = s_rows[pos[len(case["sample_inputs"]) :]] if bnd else s_rows
+                    values = {0.0, 5e-324, 1.0 - 2.0**-53}
+                    for b in row:
+                        for v in (float(b), float(np.nextafter(b, 2.0)), float(np.nextafter(b, -1.0))):
+                            if 0.0 <= v < 1.0:
+                                values.add(v)
+                    for v in sorted(values):
+                        stream = seams.RandomStream(case["cid"] * 7 + 1)
+
+                        def edit(kind, out, ncall, pos=pos, v=v):
+                            if kind != "rand":
+                                return out
+                            out = np.array(out, dtype=np.float64)
+                            out[pos] = v
+                            return out
+
+                        stream.edit = edit
+                        with seams.random_stream(stream):
+                            S = t.sample(frozenset(case["sampled"]), si)
+                        _check_tensor_sample(case, t, S, stats)
+                        n_enum += 1
+                stats["edge_draws"]["enumerated"] = n_enum
+                return {"violation": None, "stats": stats, "digest": None}
+            stream = seams.RandomStream(case["cid"] * 7 + 1)
+            if mode == "edge":
+                stream.edit = _edge_editor(case, r, stats)
             with seams.random_stream(stream):
                 S = t.sample(frozenset(case["sampled"]), si)
             stats["rand_calls"] += len(stream.calls)
@@ -754,10 +784,16 @@ def run_cases(payload):
         modes = ["plain", "prefix"]
         if case["kind"] == "tensor":
             modes += ["edge", "edge2"] if payload.get("tier") != "thorough" else ["edge", "edge2", "edge3", "edge4"]
+            ncells = len(case["data"])
+            ndraws = 1
+            for _, sz in case["sample_inputs"]:
+                ndraws *= sz
+            if ncells <= (6 if payload.get("tier") != "thorough" else 16) and ndraws <= 3:
+                modes.append("edge_enum")
         base_digest = None
         for mode in payload.get("modes", modes):
-            m = "edge" if mode.startswith("edge") else mode
-            res = fork_call(_run_case, ((case, m if not mode.startswith("edge") else "edge", "%s/%s" % (payload["seed"], mode)),), timeout=60)
+            m = mode if mode == "edge_enum" else ("edge" if mode.startswith("edge") else mode)
+            res = fork_call(_run_case, ((case, m, "%s/%s" % (payload["seed"], mode)),), timeout=120)
             tot["runs"] += 1
             if res.get("status") != "ok":
                 tot["fork_errors"] += 1
